@@ -8,6 +8,7 @@ Python subset and its semantics are documented in DESIGN.md section 2.2.  Anythi
 SymError, which is reported as `out-of-subset` (undecided) and never as a violation.
 """
 import ast
+import os
 import builtins as _bi
 import itertools as _it
 import copy as _copy
@@ -270,6 +271,9 @@ class Interp:
         self.path = path
         self.modules = {}
         self.depth = 0
+        self.frame_stack = []
+        self.pending = []
+        self._collecting = False
         self.steps = 0
         self.max_steps = 2_000_000
 
@@ -416,14 +420,80 @@ class Interp:
         self.drop_ref(old)
 
     def drop_ref(self, obj):
-        """A-gc: a mesh dict held the only reference, so the destructor runs now."""
+        """Finaliser model (A-gc).  A container slot or attribute that held `obj` is gone.  CPython finalises the object as soon as
+        NO reference is left; the interpreter sees the references held by the locals of the active repo frames and by everything
+        reachable from them (not the proof harness's own Python variables: harnesses keep none that CPython would not have either).
+          * none left            -> __del__ runs now;
+          * still referenced     -> the finaliser is pending and runs when the last visible reference goes (a local is rebound or
+                                    deleted, its frame returns, another slot is cleared).  If what holds the object is a heap
+                                    object (an attribute / a container), the path is marked `gc_deferred`: a refutation on such a
+                                    path counts only if the replay on CPython reproduces it."""
         if self.world.gc_model and isinstance(obj, IObj) and not obj.attrs.get("__dead__"):
             try:
-                d = obj.cls.lookup("__del__")
+                obj.cls.lookup("__del__")
             except KeyError:
                 return
-            obj.attrs["__dead__"] = True
-            self.call_function(d, [obj], {})
+            if not any(p is obj for p in self.pending):
+                self.pending.append(obj)
+            self.collect()
+
+    def collect(self):
+        """runs the pending finalisers whose object is no longer referenced"""
+        if not self.pending or self._collecting:
+            return
+        self._collecting = True
+        try:
+            again = True
+            while again:
+                again = False
+                for obj in list(self.pending):
+                    how = self._referenced(obj)
+                    if how is None:
+                        self.pending = [p for p in self.pending if p is not obj]
+                        obj.attrs["__dead__"] = True
+                        self.call_function(obj.cls.lookup("__del__"), [obj], {})
+                        again = True
+                    elif how == "heap" and self.path is not None:
+                        self.path.gc_deferred = True
+        finally:
+            self._collecting = False
+
+    def _referenced(self, target):
+        """None | "local" (bound directly to a local of an active frame) | "heap" (reachable through an attribute or a container)"""
+        seen = set()
+        todo = []
+        direct = False
+        for env in self.frame_stack:
+            for v in env.vars.values():
+                if v is target:
+                    direct = True
+                else:
+                    todo.append(v)
+        while todo:
+            v = todo.pop()
+            if id(v) in seen:
+                continue
+            seen.add(id(v))
+            if isinstance(v, IObj):
+                if v.attrs.get("__dead__"):
+                    continue
+                kids = list(v.attrs.values())
+            elif isinstance(v, IDict):
+                kids = [x for kv in v.items_ for x in kv]
+            elif isinstance(v, ISet):
+                kids = list(v.elems)
+            elif isinstance(v, (list, tuple)):
+                kids = list(v)
+            elif isinstance(v, IBound):
+                kids = [v.self_obj]
+            else:
+                continue
+            for k in kids:
+                if k is target:
+                    return "heap"
+                if isinstance(k, (IObj, IDict, ISet, list, tuple, IBound)) and id(k) not in seen:
+                    todo.append(k)
+        return "local" if direct else None
 
     # -- modules ------------------------------------------------------------------------------
     def module(self, name):
@@ -587,6 +657,8 @@ class Interp:
     def assign(self, t, v, env, mod):
         if isinstance(t, ast.Name):
             env.vars[t.id] = v
+            if self.pending:
+                self.collect()
         elif isinstance(t, (ast.Tuple, ast.List)):
             vals = list(self.iterate(v))
             if any(isinstance(e, ast.Starred) for e in t.elts):
@@ -618,6 +690,8 @@ class Interp:
                     raise SymError("del on " + type(obj).__name__)
             elif isinstance(t, ast.Name):
                 env.vars.pop(t.id, None)
+                if self.pending:
+                    self.collect()
             else:
                 raise SymError("del target")
 
@@ -1516,8 +1590,10 @@ class Interp:
         self.depth += 1
         if self.depth > 200:
             raise SymError("recursion depth")
+        base = len(self.frame_stack)
         try:
             env = Env(f.env)
+            self.frame_stack.append(env)
             a = f.node.args
             params = [p.arg for p in a.posonlyargs + a.args]
             nreq = len(params) - len(f.defaults)
@@ -1567,6 +1643,10 @@ class Interp:
             return None
         finally:
             self.depth -= 1
+            while len(self.frame_stack) > base:
+                self.frame_stack.pop()
+            if self.pending and not self._collecting:
+                self.collect()
 
 
 class LazyModule:
